@@ -39,6 +39,9 @@ pub enum Feature {
     Sstr { a: usize, b: usize, same: bool },
     /// every node carries a Ref to its successor (cyclic) and a SharedString shared by all
     Ring,
+    /// node `a` is a WeldConstraint whose database-known Ref property Part0 (stored under the
+    /// serialized name Part0Internal) -> target, Part1 -> null
+    Weld { a: usize, t: usize },
     /// every node carries Content C with an Object source -> its successor (cyclic)
     ContentRing,
     /// node i carries Content C: i%4==0 Object -> successor, 1 Uri, 2 Object -> predecessor, 3 None
@@ -162,6 +165,11 @@ pub fn build_plan(desc: &CaseDesc, codec: Codec) -> Plan {
                         let c = if *same { b"shared-one".to_vec() } else { b"shared-two!".to_vec() };
                         nodes[*b].props.push(("S".to_owned(), PVal::Shared(c)));
                     }
+                }
+                Feature::Weld { a, t } => {
+                    nodes[*a].class = "WeldConstraint".to_owned();
+                    nodes[*a].props.push(("Part0".to_owned(), PVal::Ref(tgt(*t))));
+                    nodes[*a].props.push(("Part1".to_owned(), PVal::Ref(Tgt::Null)));
                 }
                 Feature::ContentRing => {
                     for i in 0..n {
@@ -765,6 +773,11 @@ pub fn topo_cases(max_nodes: usize, class_count: u8) -> Vec<CaseDesc> {
                             }
                         }
                         feats.push(Feature::Ring);
+                        for a in 0..n {
+                            for t in 0..(n + 2) {
+                                feats.push(Feature::Weld { a, t });
+                            }
+                        }
                         feats.push(Feature::ContentRing);
                         feats.push(Feature::ContentMix);
                     }
@@ -829,6 +842,7 @@ pub fn class_of(desc: &CaseDesc) -> String {
                 Feature::ContentObj { .. } => "content-object",
                 Feature::ContentRing => "content-ring",
                 Feature::ContentMix => "content-mix",
+                Feature::Weld { .. } => "known-ref-serialized-under-other-name",
                 Feature::Sstr { .. } => "sharedstring",
                 Feature::Ring => "ring",
             };
